@@ -393,6 +393,12 @@ def handleLoc (fn : String) (a : Array String) : Option String := do
         else if t.startsWith "name:" then (getS (t.drop 5).toString).map DepArg.name
         else (getArg t).map DepArg.num)
       pure (exc tokF (setDepression d))
+  | "set_timezone" =>
+      -- set_timezone <current zone> <assigned name> <known B> → zone afterwards, outcome
+      let cur ← getS a[0]!; let nm ← getS a[1]!; let known ← getB a[2]!
+      let st : LocState F := ⟨0.0, 0.0, cur, 6.0⟩
+      let (st', e) := setTimezone st nm known
+      pure (tokS st'.tz ++ " " ++ (match e with | none => "ok" | some err => tokE err))
   | "cli_run" =>
       -- cli_run <name> <region> <date|N> <tz|N> <lat> <lon> <elev>
       let n ← getS a[0]!; let r ← getS a[1]!
